@@ -115,40 +115,6 @@ pub(crate) fn c01_grid_fold_count_value() {
     vk::grid_done("c01_grid_fold_count_value", n);
 }
 
-// @harness c01_recursive_expander_step tier=quick kind=complete timeout=900 heavy=1
-// @ob RecursiveEdgeExpander::next, one step from the states reachable by construction (fresh / self already moved out / neighbours ended) with a havoc neighbour iterator: the first neighbour row carries the origin context as its only piggyback rider (suspended), later neighbour rows carry none, when the neighbours end the origin itself is yielded exactly once iff it was not yet handed out, and then nothing
-#[kani::proof]
-#[kani::unwind(2)]
-pub(crate) fn c01_recursive_expander_step() {
-    let active = if vk::any_bool() { Some(vk::any_u8()) } else { None };
-    let moved_out = vk::any_bool();      // the origin context has already been attached to the first neighbour
-    let neighbors_ended = vk::any_bool();
-    vk::assume(!moved_out || active.is_some()); // a context without a vertex has no neighbours to move out with
-    let base: DataContext<u8> = DataContext::new(active);
-    let mut e = RecursiveEdgeExpander {
-        context: if moved_out { None } else { Some(base) },
-        neighbor_base: if moved_out { Some(DataContext::new(None)) } else { None },
-        neighbors: Box::new(Havoc { allowed: active.is_some() }),
-        has_neighbors: false,
-        neighbors_ended,
-    };
-    let out = e.next();
-    verif_cover!(matches!(&out, Some(c) if c.piggyback.is_some()), "first neighbour with rider reachable");
-    verif_cover!(out.is_none(), "exhausted reachable");
-    match &out {
-        None => assert!(moved_out && e.neighbors_ended, "nothing is yielded only after the origin was handed out and the neighbours ended"),
-        Some(c) => {
-            if let Some(riders) = &c.piggyback {
-                assert!(!moved_out && !neighbors_ended, "a rider is attached only to the first neighbour");
-                assert!(riders.len() == 1 && riders[0].active_vertex.is_none() && riders[0].suspended_vertices.len() == 1, "the rider is the suspended origin context");
-                assert!(c.active_vertex.is_some() && e.context.is_none() && e.neighbor_base.is_some(), "the row moved to the neighbour and the origin was handed out");
-            } else if e.neighbors_ended && !moved_out && e.context.is_none() && (neighbors_ended || c.active_vertex == active) {
-                // the origin itself, yielded when the neighbours ended
-                assert!(c.active_vertex == active, "the origin context is yielded unchanged");
-            } else {
-                assert!(moved_out && c.active_vertex.is_some(), "later neighbours are plain rows built from the neighbour base");
-            }
-        }
-    }
-    core::mem::forget((e, out));
-}
+// (A Kani step contract for RecursiveEdgeExpander::next in the style of c01_edge_expander_step was tried:
+//  the piggyback Vec<DataContext> and the nested context clones do not finish in 10 minutes, so the
+//  recursion layer stays with the native sequence grid below.)
